@@ -33,8 +33,11 @@ package main
 import (
 	"fmt"
 	"go/ast"
+	"go/parser"
 	"go/token"
 	"go/types"
+	"os"
+	"path/filepath"
 	"sort"
 	"strings"
 )
@@ -640,5 +643,255 @@ func (st *accState) emitQueries() string {
 	fmt.Fprintf(&b, "Definition cpr_clear_on_timeout : bool := %s.\n", coqBool(clr["timeout"]))
 	fmt.Fprintf(&b, "Definition cpr_clear_on_reply : bool := %s.\n", coqBool(clr["reply"]))
 	fmt.Fprintf(&b, "Definition cprh_clear_pos : Z := %d.\n", hclr)
+	b.WriteString(emitLockedPosts())
+	return b.String()
+}
+
+// ---------------------------------------------------------------- posts under a lock
+//
+// posts_under_lock: every call of PostEvent / PostEventBlocking / SyncFunc (on any
+// receiver) that is made, in any non-test file of the module outside cmd/, while a
+// mutex is held SYNTACTICALLY in the same function body: between `E.Lock()` /
+// `E.RLock()` and the matching `E.Unlock()` / `E.RUnlock()` statement of the same
+// statement list, or anywhere after `defer E.Unlock()`.  A function literal is a
+// body of its own (it runs as a goroutine or a callback: nothing is held on entry).
+// Accepted grammar: a compound statement (if / for / switch / select / block) must
+// leave the set of held locks as it found it unless it ends in return, break,
+// continue, goto or panic; otherwise die.  Not seen: a post made by a function that
+// is called with the lock held.
+//   (function, lock expression, blocking)
+type lockedPost struct {
+	fn, lock string
+	blocking bool
+	pos      token.Pos
+}
+
+type lockScan struct {
+	fs  *token.FileSet
+	fn  string
+	out []lockedPost
+}
+
+func lockCall(s ast.Stmt) (string, string, bool) {
+	var call *ast.CallExpr
+	deferred := false
+	switch v := s.(type) {
+	case *ast.ExprStmt:
+		call, _ = v.X.(*ast.CallExpr)
+	case *ast.DeferStmt:
+		call, deferred = v.Call, true
+	}
+	if call == nil || len(call.Args) != 0 {
+		return "", "", false
+	}
+	sel, ok := call.Fun.(*ast.SelectorExpr)
+	if !ok {
+		return "", "", false
+	}
+	switch sel.Sel.Name {
+	case "Lock", "RLock":
+		if deferred {
+			return "", "", false
+		}
+		return types.ExprString(sel.X), "lock", true
+	case "Unlock", "RUnlock":
+		if deferred {
+			return types.ExprString(sel.X), "defer-unlock", true
+		}
+		return types.ExprString(sel.X), "unlock", true
+	}
+	return "", "", false
+}
+
+func (ls *lockScan) posts(n ast.Node, held []string) {
+	if n == nil {
+		return
+	}
+	ast.Inspect(n, func(m ast.Node) bool {
+		switch v := m.(type) {
+		case *ast.FuncLit:
+			ls.body(v.Body, ls.fn+"$lit")
+			return false
+		case *ast.CallExpr:
+			if sel, ok := v.Fun.(*ast.SelectorExpr); ok && len(held) > 0 {
+				switch sel.Sel.Name {
+				case "PostEvent", "SyncFunc":
+					ls.out = append(ls.out, lockedPost{ls.fn, held[len(held)-1], false, v.Pos()})
+				case "PostEventBlocking":
+					ls.out = append(ls.out, lockedPost{ls.fn, held[len(held)-1], true, v.Pos()})
+				}
+			}
+		}
+		return true
+	})
+}
+
+func endsInJump(list []ast.Stmt) bool {
+	if len(list) == 0 {
+		return false
+	}
+	switch v := list[len(list)-1].(type) {
+	case *ast.ReturnStmt, *ast.BranchStmt:
+		return true
+	case *ast.ExprStmt:
+		if c, ok := v.X.(*ast.CallExpr); ok {
+			if id, ok := c.Fun.(*ast.Ident); ok && id.Name == "panic" {
+				return true
+			}
+		}
+	}
+	return false
+}
+
+func sameLocks(a, b []string) bool {
+	if len(a) != len(b) {
+		return false
+	}
+	for i := range a {
+		if a[i] != b[i] {
+			return false
+		}
+	}
+	return true
+}
+
+// list walks one statement list and returns the locks held at its end
+func (ls *lockScan) list(list []ast.Stmt, held []string) []string {
+	held = append([]string(nil), held...)
+	nested := func(body []ast.Stmt, pos token.Pos) {
+		after := ls.list(body, held)
+		if !sameLocks(after, held) && !endsInJump(body) {
+			die("query: %s: a compound statement in %s changes the set of held locks (outside the accepted grammar of posts_under_lock)", ls.fs.Position(pos), ls.fn)
+		}
+	}
+	for _, s := range list {
+		if e, what, ok := lockCall(s); ok {
+			switch what {
+			case "lock":
+				held = append(held, e)
+			case "unlock":
+				for i := len(held) - 1; i >= 0; i-- {
+					if held[i] == e {
+						held = append(held[:i:i], held[i+1:]...)
+						break
+					}
+				}
+			}
+			continue
+		}
+		switch v := s.(type) {
+		case *ast.BlockStmt:
+			nested(v.List, v.Pos())
+		case *ast.IfStmt:
+			ls.posts(v.Init, held)
+			ls.posts(v.Cond, held)
+			nested(v.Body.List, v.Pos())
+			if v.Else != nil {
+				nested([]ast.Stmt{v.Else}, v.Pos())
+			}
+		case *ast.ForStmt:
+			ls.posts(v.Init, held)
+			ls.posts(v.Cond, held)
+			ls.posts(v.Post, held)
+			nested(v.Body.List, v.Pos())
+		case *ast.RangeStmt:
+			ls.posts(v.X, held)
+			nested(v.Body.List, v.Pos())
+		case *ast.SwitchStmt:
+			ls.posts(v.Init, held)
+			ls.posts(v.Tag, held)
+			for _, c := range v.Body.List {
+				nested(c.(*ast.CaseClause).Body, c.Pos())
+			}
+		case *ast.TypeSwitchStmt:
+			for _, c := range v.Body.List {
+				nested(c.(*ast.CaseClause).Body, c.Pos())
+			}
+		case *ast.SelectStmt:
+			for _, c := range v.Body.List {
+				cc := c.(*ast.CommClause)
+				ls.posts(cc.Comm, held)
+				nested(cc.Body, c.Pos())
+			}
+		case *ast.LabeledStmt:
+			nested([]ast.Stmt{v.Stmt}, v.Pos())
+		default:
+			ls.posts(s, held)
+		}
+	}
+	return held
+}
+
+func (ls *lockScan) body(b *ast.BlockStmt, name string) {
+	if b == nil {
+		return
+	}
+	saved := ls.fn
+	ls.fn = name
+	ls.list(b.List, nil)
+	ls.fn = saved
+}
+
+func emitLockedPosts() string {
+	var files []string
+	err := filepath.WalkDir(".", func(p string, d os.DirEntry, err error) error {
+		if err != nil {
+			return err
+		}
+		if d.IsDir() {
+			n := d.Name()
+			if p != "." && (strings.HasPrefix(n, ".") || strings.HasPrefix(n, "_") || n == "cmd" || n == "testdata" || n == "vendor") {
+				return filepath.SkipDir
+			}
+			return nil
+		}
+		if strings.HasSuffix(p, ".go") && !strings.HasSuffix(p, "_test.go") && !strings.HasPrefix(filepath.Base(p), "zz_") {
+			files = append(files, p)
+		}
+		return nil
+	})
+	if err != nil {
+		die("query: walking the module: %v", err)
+	}
+	sort.Strings(files)
+	lfset := token.NewFileSet()
+	ls := &lockScan{fs: lfset}
+	var posOf = map[token.Pos]string{}
+	for _, p := range files {
+		f, err := parser.ParseFile(lfset, p, nil, parser.SkipObjectResolution)
+		if err != nil {
+			die("query: %v", err)
+		}
+		dir := filepath.ToSlash(filepath.Dir(p))
+		if dir == "." {
+			dir = "vaxis"
+		}
+		for _, d := range f.Decls {
+			fd, ok := d.(*ast.FuncDecl)
+			if !ok || fd.Body == nil {
+				continue
+			}
+			name := dir + "." + fd.Name.Name
+			if fd.Recv != nil && len(fd.Recv.List) == 1 {
+				name = dir + "." + strings.TrimPrefix(types.ExprString(fd.Recv.List[0].Type), "*") + "." + fd.Name.Name
+			}
+			before := len(ls.out)
+			ls.body(fd.Body, name)
+			for i := before; i < len(ls.out); i++ {
+				posOf[ls.out[i].pos] = fmt.Sprintf("%s:%d", p, lfset.Position(ls.out[i].pos).Line)
+			}
+		}
+	}
+	var b strings.Builder
+	b.WriteString("\n(* posts made while a mutex is held syntactically in the same function body, in every non-test file of the\n   module outside cmd/ (gen/query.go): (function, lock, blocking) *)\n")
+	b.WriteString("Definition posts_under_lock : list (string * string * bool) := [\n")
+	for i, lp := range ls.out {
+		sep := ";"
+		if i == len(ls.out)-1 {
+			sep = ""
+		}
+		fmt.Fprintf(&b, "  (\"%s\", \"%s\", %s)%s (* %s *)\n", lp.fn, lp.lock, coqBool(lp.blocking), sep, posOf[lp.pos])
+	}
+	b.WriteString("].\n")
 	return b.String()
 }
